@@ -26,15 +26,26 @@ def perform(req, state=None):
     from harness import exprs
     op = req['op']
     if op['k'] == 'load':
-        d = tempfile.mkdtemp(prefix='tvhist_')
+        # the history-carrying side keeps ONE budget directory for the whole history (the user edits
+        # config/merchants.rules in place and reloads it); the pristine child uses a directory of its own
+        keep = state is not None and state.get('dir')
+        d = state['dir'] if keep else tempfile.mkdtemp(prefix='tvhist_')
         try:
             path = os.path.join(d, 'merchants.rules' if op['kind'] == 'rules' else 'merchant_categories.csv')
             with open(path, 'w', encoding='utf-8', newline='') as f:
                 f.write(op['text'])
-            rules = MU.get_all_rules(path, match_mode=op.get('mode', 'first_match'))
-            transforms = MU.get_transforms(path, match_mode=op.get('mode', 'first_match'))
+            if op.get('mtime'):
+                os.utime(path, (op['mtime'], op['mtime']))      # an edit within the file system's timestamp granularity
+            order = op.get('order', 'rt')
+            rules = transforms = None
+            for which in order:                                  # the commands ask for rules / transforms in either order
+                if which == 'r':
+                    rules = MU.get_all_rules(path, match_mode=op.get('mode', 'first_match'))
+                else:
+                    transforms = MU.get_transforms(path, match_mode=op.get('mode', 'first_match'))
         finally:
-            shutil.rmtree(d, ignore_errors=True)
+            if not keep:
+                shutil.rmtree(d, ignore_errors=True)
         if state is not None:
             state['rules'], state['transforms'] = rules, transforms
         return {'loaded': len(rules)}, (rules, transforms)
